@@ -939,8 +939,24 @@ pub(crate) fn tokens_to_operator_tree<NumericTypes: EvalexprNumericTypes>(
                         } else {
                             // If the new sequence doesn't have a higher precedence, then all sequences with a higher precedence are collapsed below this one
                             root = collapse_root_stack_to(&mut root_stack, root, &node)?;
-                            node.children.push(root);
-                            root_stack.push(node);
+                            if let Some(mut lower_root) = root_stack.pop() {
+                                if mem::discriminant(lower_root.operator())
+                                    == mem::discriminant(node.operator())
+                                {
+                                    // The collapsed sequence is the last element of an open sequence of the same kind
+                                    lower_root.children.push(root);
+                                    lower_root.children.push(Node::root_node());
+                                    root_stack.push(lower_root);
+                                } else {
+                                    // The collapsed sequence is the first element of a new sequence
+                                    root_stack.push(lower_root);
+                                    node.children.push(root);
+                                    node.children.push(Node::root_node());
+                                    root_stack.push(node);
+                                }
+                            } else {
+                                return Err(EvalexprError::UnmatchedRBrace);
+                            }
                         }
                     }
                 // println!("Stack after sequence operation: {:?}", root_stack);
